@@ -50,6 +50,13 @@ pub enum TIns {
     /// a struct generic over two dimensions and a generic function that returns it with the
     /// type arguments permuted (`GPair<B, A>`), instantiated at two dimensions
     GenericStruct { dim: [i8; 3], seed: u32 },
+    /// a function whose parameter is named like a unit alias (`m`, `s`, `g`) and whose body uses
+    /// a prefixed form of that unit (`km`, `ms`, `kg`): the prefixed identifier is still the unit
+    ShadowUnit { dim: [i8; 3], which: u8, seed: u32 },
+    /// recorded finding class: a second base unit for a dimension that already has one
+    /// (`unit b2: Length`), added to a quantity of the first (generated rarely, only when the
+    /// known classes are allowed)
+    SecondBaseUnit { seed: u32 },
 }
 
 pub fn tins_strategy() -> impl Strategy<Value = TIns> {
@@ -66,6 +73,8 @@ pub fn tins_strategy() -> impl Strategy<Value = TIns> {
         1 => (dim(), any::<u32>()).prop_map(|(dim, seed)| TIns::Assert { dim, seed }),
         2 => (any::<u16>(), dim(), any::<u32>()).prop_map(|(var, dim, seed)| TIns::Redefine { var, dim, seed }),
         1 => (dim(), any::<u32>()).prop_map(|(dim, seed)| TIns::GenericStruct { dim, seed }),
+        2 => (dim(), 0u8..3, any::<u32>()).prop_map(|(dim, which, seed)| TIns::ShadowUnit { dim, which, seed }),
+        1 => any::<u32>().prop_map(|seed| TIns::SecondBaseUnit { seed }),
     ]
 }
 
@@ -118,6 +127,7 @@ pub struct Features {
     pub derived_dimension: bool,
     pub redefinition: bool,
     pub zero_exponent: bool,
+    pub second_base_unit: bool,
     /// known-finding classes that were generated
     pub inexact_float_exponent: bool,
     pub polymorphic_literal: bool,
@@ -297,6 +307,11 @@ impl<'a> Gen<'a> {
             }
         } else {
             self.features.rational_power = true;
+            // a negative power of two inside the exponent: 1/2 = 2^-1, 1/4 = 2^-2
+            if k.n == 1 && (k.d == 2 || k.d == 4) && r.chance(1, 5) {
+                self.features.composite_exponent = true;
+                return (format!("^(2^-{})", if k.d == 2 { 1 } else { 2 }), false);
+            }
             match r.below(3) {
                 0 if k.d == 2 || k.d == 4 => (format!("^({:?})", k.to_f64()), false),
                 1 => {
@@ -696,6 +711,41 @@ impl<'a> Gen<'a> {
                 let a = self.expr_inner(&v, &mut r, 1);
                 let b = self.site(a.clone());
                 vec![Stmt { text: format!("assert_eq({a}, {b})"), defines: vec![], dim: None, prints: 0 }]
+            }
+            TIns::ShadowUnit { dim, which, seed } => {
+                let v = vec_of(*dim, 0);
+                let mut r = Rng(*seed as u64);
+                let (param, prefixed, unit_dim) = [("m", "km", "Length"), ("s", "ms", "Time"), ("g", "kg", "Mass")][*which as usize % 3];
+                let out = v.mul(&DimVec::single(unit_dim));
+                let name = self.fresh("su");
+                let pa = self.annotation_inner(&v, &mut r);
+                let arg = self.expr_inner(&v, &mut r, 2);
+                let arg = self.site(arg);
+                let q = self.fresh("q");
+                let k = 2 + r.below(7);
+                self.vars.push((q.clone(), out.clone()));
+                self.features.generic_instantiations += 0;
+                self.features.composite_exponent = true;
+                vec![
+                    // the return type is left to inference: the body's type must come out right
+                    Stmt { text: format!("fn {name}({param}: {pa}) = {param} * ({k} {prefixed})"), defines: vec![(name.clone(), None)], dim: None, prints: 0 },
+                    Stmt { text: format!("let {q} = {name}({arg})"), defines: vec![(q, Some(out.clone()))], dim: Some(out), prints: 0 },
+                ]
+            }
+            TIns::SecondBaseUnit { seed } => {
+                let mut r = Rng(*seed as u64);
+                if !self.allow_known_classes || !r.chance(1, 8) {
+                    return self.render(&TIns::Let { dim: [1, 0, 0], half: 0, seed: *seed, annotate: 1 });
+                }
+                self.features.second_base_unit = true;
+                let u = self.fresh("bsecond");
+                let q = self.fresh("q");
+                let v = DimVec::single("Length");
+                self.vars.push((q.clone(), v.clone()));
+                vec![
+                    Stmt { text: format!("unit {u}: Length"), defines: vec![(u.clone(), None)], dim: None, prints: 0 },
+                    Stmt { text: format!("let {q} = 3 {u} + 2 metre"), defines: vec![(q, Some(v.clone()))], dim: Some(v), prints: 0 },
+                ]
             }
             TIns::GenericStruct { dim, seed } => {
                 let v = vec_of(*dim, 0);
